@@ -466,6 +466,19 @@ def gen_smooth(rng, tier):
             for v in range(len(verts)):
                 if rng.random() < 0.4:
                     ops.append(fmt_op('improve', [v, 0], 1.0, verts, oc))
+    # local configurations: a closed fan of tets around the edge (0,1) and exactly ONE non-simplex neighbour kind at
+    # vertex 0 (each kind alone decides the freeze: pyramid apex / base corner, prism corner, hex corner, quad corner),
+    # or a boundary triangle, or nothing
+    for kind in MIXED + ('tri', None):
+        for rep in range(N(tier, 2, 4)):
+            pts, cells = edge_star(rng, closed=True)
+            if kind == 'tri':
+                cells.append(['tri', 0, len(pts), len(pts) + 1, 1])
+                pts += [[2.0, 0.0, 0.0], [2.0, 1.0, 0.0]]
+            elif kind is not None:
+                attach(rng, pts, cells, kind, (rng.randrange(SIZES[kind][0]),), 0, None)
+            ops.append(fmt_op('improve', [0, 0], 1.0, pts, cells))
+            ops.append(fmt_op('improve', [1, 0], 1.0, pts, cells))
     p3 = [[0.0, 0.0, 0.0], [1.0, 0.0, 0.0], [0.0, 1.0, 0.0]]
     ops.append(fmt_op('improve', [7, 0], 1.0, p3, [['tri', 0, 1, 2, 1]]))
     ops.append(fmt_op('nosuch', [0, 0], 1.0, p3, [['tri', 0, 1, 2, 1]]))
